@@ -146,6 +146,9 @@ fn translate_one(
         Some(i) => format!("{}::{}::{}", t.file, i, t.func),
         None => format!("{}::{}", t.file, t.func),
     };
+    if t.group == "ListMacros" {
+        return translate_list_macro_target(reg, module, t, done, failed, cfg_features, rust);
+    }
     let (sig, block, toks) = match find_fn(reg, t) {
         Ok(x) => x,
         Err(e) => {
@@ -212,6 +215,80 @@ fn translate_one(
         hashed.push_str(k);
         hashed.push_str(" = ");
         hashed.push_str(v);
+    }
+    let sha = sha256::sha256_hex(hashed.as_bytes());
+    match res {
+        Ok((text, fsig)) => (Outcome { ok: true, reason: String::new(), rust, sha, text, contracts: tr.contracts.iter().cloned().collect() }, Some(fsig)),
+        Err(e) => {
+            let e1 = norm_ws(&e);
+            (Outcome { ok: false, reason: e1.clone(), rust, sha, text: format!("-- UNTRANSLATED {}: {}\n", t.lean, e1), contracts: Vec::new() }, None)
+        }
+    }
+}
+
+fn new_tr<'a>(
+    reg: &'a Registry,
+    module: &'a ModuleCfg,
+    t: &'a Target,
+    done: &'a BTreeMap<String, FnSig>,
+    failed: &'a BTreeMap<String, String>,
+    cfg_features: &Option<Vec<String>>,
+) -> Tr<'a> {
+    Tr {
+        reg,
+        module,
+        target: t,
+        file: t.file,
+        self_ty: t.imp.map(|s| s.to_string()),
+        tparams: HashMap::new(),
+        mode: Mode::Pure,
+        ret_ty: Ty::Unit,
+        pure_only: 0,
+        used_names: BTreeSet::new(),
+        deps: BTreeMap::new(),
+        done,
+        failed,
+        pending: Vec::new(),
+        decl_ty: HashMap::new(),
+        decl_site: HashMap::new(),
+        site_ty: HashMap::new(),
+        first_pass: false,
+        loop_cache: HashMap::new(),
+        aux: Vec::new(),
+        aux_n: 0,
+        loops: Vec::new(),
+        outs: Vec::new(),
+        self_out: None,
+        ret_unit: false,
+        plain_res: false,
+        uses_t: false,
+        uses_l: false,
+        features: cfg_features.clone().unwrap_or_else(|| config::features_of(t.lean)),
+        contracts: BTreeSet::new(),
+    }
+}
+
+fn translate_list_macro_target(
+    reg: &Registry,
+    module: &ModuleCfg,
+    t: &Target,
+    done: &BTreeMap<String, FnSig>,
+    failed: &BTreeMap<String, String>,
+    cfg_features: &Option<Vec<String>>,
+    rust: String,
+) -> (Outcome, Option<FnSig>) {
+    let mut tr = new_tr(reg, module, t, done, failed, cfg_features);
+    let res = tr_macro::translate_list_macro(&mut tr);
+    // hash: the macro item's tokens
+    let mut hashed = String::new();
+    if let Ok(f) = reg.file(t.file) {
+        for it in &f.items {
+            if let syn::Item::Macro(m) = it {
+                if m.ident.as_ref().map(|i| i == t.func).unwrap_or(false) {
+                    hashed.push_str(&norm_tokens(m));
+                }
+            }
+        }
     }
     let sha = sha256::sha256_hex(hashed.as_bytes());
     match res {
